@@ -2,7 +2,10 @@ module verifharness
 
 go 1.26.0
 
-require github.com/feichai0017/NoKV v0.0.0
+require (
+	github.com/feichai0017/NoKV v0.0.0
+	google.golang.org/grpc v1.79.1
+)
 
 require (
 	github.com/cespare/xxhash/v2 v2.3.0 // indirect
@@ -18,7 +21,6 @@ require (
 	golang.org/x/sys v0.41.0 // indirect
 	golang.org/x/text v0.32.0 // indirect
 	google.golang.org/genproto/googleapis/rpc v0.0.0-20251202230838-ff82c1b0f217 // indirect
-	google.golang.org/grpc v1.79.1 // indirect
 	google.golang.org/protobuf v1.36.11 // indirect
 )
 
